@@ -48,6 +48,14 @@ def _setup_handlers(e, W, st, P):
     st.handlers = uv
     st.nh0 = nh
     st.handlers_arr0 = hseq.arr
+    # representation invariant: a fiber is Unwinding only while the clauses of its innermost handler are evaluated (between the
+    # unwinder's jump to the catch label and FinishUnwind / ContinueUnwind / an error raised there), so that handler exists
+    fsd = P.struct_def('fiber::Fiber')
+    si = fsd.index_of('state')
+    stv = st.fiber.field(e, si, fsd.fields[si][1]).get(e)
+    sed = P.enum_def('fiber::FiberState')
+    if not isinstance(stv.tag, int):
+        e.assume(z3.Implies(stv.tag == sed.vindex['Unwinding'], z3.UGE(nh, 1)))
     return uv
 
 
@@ -134,6 +142,7 @@ def k3_raise(res, tier):
 
     def path(e):
         st = W.fresh_state(e)
+        _setup_handlers(e, W, st, P)          # incl. the invariant: Unwinding only while a handler's clauses are evaluated
         top = ValView(e, P, st.stack.load(e, z3.simplify(st.sp - 1)))
         e.assume(z3.Not(top.is_undef))
         outcome, sig = 'ok', None
